@@ -624,6 +624,31 @@ func c11GenOps(seed uint64, nchan int, dir string) []c11Op {
 			{"blk", "B", c11Req{}}, {"blk", "B", c11Req{}}, {"blk", "B", c11Req{}}}
 		ops = append(ops[:1], append(directed, ops[1:]...)...)
 	}
+	if r.Chance(25) {
+		// directed: a positive length pair that only the source refuses, then the IDENTICAL request again (a refused
+		// request changes nothing, so it must be refused again), then Stop, a Start with the lengths the RPC layer
+		// has on record, triggers on, and blocks.  Appended at the end (the source may or may not still run).
+		bad := [][2]int{{100, 200}, {10, 2}, {5, 5}, {3, 7}, {40, 40}}[r.Intn(5)]
+		var reply bool
+		mk := func() c11Op {
+			q := c11Req{fmt.Sprintf("L %d %d", bad[0], bad[1]), func(h *lcH) (error, bool) {
+				return h.sc.ConfigurePulseLengths(dastard.SizeObject{Nsamp: bad[0], Npre: bad[1]}, &reply), false
+			}}
+			return c11Op{"req", q.text, q}
+		}
+		all := make([]int, nchan)
+		for i := range all {
+			all[i] = i
+		}
+		trig := c11Req{fmt.Sprintf("T %s", ints(all)), func(h *lcH) (error, bool) {
+			st := &dastard.FullTriggerState{ChannelIndices: all}
+			st.LevelTrigger, st.LevelRising, st.LevelLevel = true, true, 1000
+			st.EdgeTrigger, st.EdgeRising, st.EdgeLevel = true, true, 1000
+			return h.sc.ConfigureTriggers(st, &reply), false
+		}}
+		ops = append(ops, mk(), mk(), c11Op{kind: "stop", text: "K"}, c11Op{kind: "start", text: "A"},
+			c11Op{"req", trig.text, trig}, c11Op{kind: "blk", text: "B"}, c11Op{kind: "blk", text: "B"})
+	}
 	return ops
 }
 
@@ -676,6 +701,21 @@ func c11Hist(idx int, r *Rng) (string, func() string) {
 			case "refresh":
 				h.sc.VerifRefresh()
 				dastard.VerifNote("flag.refresh")
+			case "start":
+				// what SourceControl.Start does: the real Start with the lengths the RPC layer has on record
+				npre, nsamp := h.sc.VerifStatusLengths()
+				h.nS++
+				c := h.spawn(fmt.Sprintf("S%d", h.nS), func() error {
+					return dastard.Start(h.ds, h.sc.VerifQueue(), npre, nsamp)
+				})
+				if !c.wait(3 * time.Second) {
+					rets[i] = 2
+				} else {
+					rets[i] = c.ret
+					if c.ret == 0 {
+						h.flagOn()
+					}
+				}
 			}
 			if rets[i] == 2 {
 				break
